@@ -2,6 +2,7 @@ package props
 
 import (
 	"bytes"
+	"os"
 	"time"
 
 	"exoverif/sim"
@@ -47,6 +48,11 @@ type GenOpts struct {
 	// DowntimePct > 0: that share of the blocks has validators missing from the last commit
 	// (worlds with a short x/slashing window turn that into downtime slashes and jailing).
 	DowntimePct int
+	// FailingSecondMsg: price transactions may carry a second message with the validator's next
+	// nonce that fails in execution (C13); AvoidFailingSecondMsg, if set, keeps them out again
+	// (exclusion by construction of a listed finding) and counts how often.
+	FailingSecondMsg      bool
+	AvoidFailingSecondMsg *int
 	// SimPct > 0: that share of the transactions is not delivered but run as a node-local
 	// simulation on the recording node (C08, C14: the replicas never see them)
 	SimPct int
@@ -787,6 +793,11 @@ func (m *Machine) drawPrice(t *rapid.T, g *GenOpts, a *Action) {
 	if nd == 2 && a.Dets[0] == a.Dets[1] {
 		a.Dets[1] = a.Dets[1] + "0"
 	}
+	if os.Getenv("VERIF_FORCE_SECOND_MSG") == "often" && pct(t, 15, "forced-second?") {
+		// investigation aid: the failing-second-message variant at a high rate in any world
+		a.Twice, a.N, a.Hostile = true, 1, true
+		return
+	}
 	// perturbations
 	if pct(t, g.HostilePct, "perturb?") {
 		a.Hostile = true
@@ -834,6 +845,13 @@ func (m *Machine) drawPrice(t *rapid.T, g *GenOpts, a *Action) {
 			a.Pad = []int{600, 820, 900, 1100}[uniform(t, 4, "pad")]
 		case 10:
 			a.Twice = true
+			if (g.FailingSecondMsg || os.Getenv("VERIF_FORCE_SECOND_MSG") != "") && pct(t, 60, "next-nonce?") {
+				if g.AvoidFailingSecondMsg != nil {
+					*g.AvoidFailingSecondMsg++ // listed finding still reproduces: kept out of the histories, counted
+				} else {
+					a.N = 1 // the second message carries the validator's next nonce
+				}
+			}
 		case 11:
 			a.Feeder = []uint64{0, 9, uint64(len(m.W.Cfg.Assets))}[uniform(t, 3, "badfeeder")]
 		}
